@@ -456,6 +456,15 @@ def replay_ksa_md_small_molecule(model):
     return {"reproduced": bool(bad), "Etot_after_4_steps": out}
 
 
+def task_fermi_occupations(ctx):
+    """Krylov-subspace / finite-temperature variant: the density EnergyXL.forward builds from F(P) is Fermi_Q's; its chemical
+    potential is updated by the Newton step TOWARDS the root of sum_i f_i(mu) = N over the molecule's physical orbitals, the
+    occupations are the Fermi function at the final chemical potential, D = 2 Q f Q^T (contract shared with C05's fermi_rows)."""
+    from contracts.C05_batching import task_fermi_rows
+
+    task_fermi_rows(ctx)
+
+
 def task_ksa_subspace_solve(ctx):
     """Krylov-subspace variant (EnergyXL.forward with max_rank): the statements that solve for the kernel update inside the
     subspace (Rank_m = ... up to IdentRes = ..., extracted from the source on every run) are total and a projection for EVERY set
@@ -467,5 +476,5 @@ def task_ksa_subspace_solve(ctx):
     ksa_subspace_contract(ctx, "seqm.dynamics.xlbomd:EnergyXL.forward", XL.EnergyXL.forward, replay_ksa_md_small_molecule, "ksa_md_subspace")
 
 
-TASKS_QUICK = ["table", "fixed_point", "history", "stability", "shadow_energy", "ksa_subspace_solve"]
+TASKS_QUICK = ["table", "fixed_point", "history", "stability", "shadow_energy", "ksa_subspace_solve", "fermi_occupations"]
 TASKS_THOROUGH = TASKS_QUICK
